@@ -56,6 +56,11 @@ CHECKS = {
    text='TLC enumerates ALL functions for (n,m) in {(1,1),(2,1),(2,2),(3,1)} (FuncUniverse.tla; larger shapes sampled); each is realised as TruthTable, PyFunction (sequence and positional callables) and Circuit (DNF) and every protocol query with every index argument / output subset is asked; TLC judges every answer against the mathematical definitions in FuncProps.tla, hence the three representations agree. All don\'t-care patterns of (2,1) (sampled beyond) are completed through TruthTableModel / PyFunctionModel.define and integer wrappers are decoded in both bit orders.',
    note='Trusted: TLC, FuncProps definitions (monotone = documented canonical-order definition). For the negation query only existence and validity of the returned vector are compared.',
    tech='TLC-enumerated Boolean functions replayed into three representations; recorded protocol answers validated against TLA+ definitions by TLC'),
+
+ 'C11': dict(cat='model_checking', ref='5 (C11)',
+   text='Round trip: TLC-enumerated universe circuits over all 18 types (labels drawn from an identifier alphabet with keyword-like labels, non-topological storage, repeated outputs) and random circuits are formatted and re-parsed (string and file); TLC compares gates/operand order, input order and output order. Parser fidelity: line records of such netlists in a permuted order (use before definition) with comments, blank lines, BUFF/vdd aliases, random letter case and spacing are rendered to text and parsed; TLC compares the parsed projection and its truth table with Bench.Denote(doc).',
+   note='Trusted: TLC, Bench.Denote, the 20-line renderer of token records to text. Text-level fidelity is judged through spec-level meaning; the specification is not a lexer (least natural fit of the technique). Tabs, trailing comments and a space between a keyword and "(" are not generated.',
+   tech='TLA+ denotation of bench documents; recorded parse / print results validated by TLC'),
 }
 PENDING = 'check not built yet in this round (work in progress; see DESIGN.md section 5)'
 m = {
